@@ -625,12 +625,20 @@ class Dict(dict, base.Symbolic, pg_typing.CustomTyping):
           root_path=utils.KeyPath(name, self.sym_path),
       )
     if field and flags.is_type_check_enabled():
-      value = field.apply(
-          value,
-          allow_partial=allow_partial,
-          transform_fn=base.symbolic_transform_fn(self._allow_partial),
-          root_path=utils.KeyPath(name, self.sym_path),
-      )
+      # NOTE: a symbolic value is applied in place (the field's spec is bound
+      # to it, defaults are filled in) before it is known to be acceptable: a
+      # refused value is put back as it was.
+      before = base.typing_state(value)
+      try:
+        value = field.apply(
+            value,
+            allow_partial=allow_partial,
+            transform_fn=base.symbolic_transform_fn(self._allow_partial),
+            root_path=utils.KeyPath(name, self.sym_path),
+        )
+      except BaseException:
+        base.restore_typing_state(before)
+        raise
     return self._relocate_if_symbolic(name, value)
 
   @property
@@ -987,6 +995,13 @@ class Dict(dict, base.Symbolic, pg_typing.CustomTyping):
       if self._allow_partial == allow_partial:
         proceed_with_standard_apply = False
       else:
+        # NOTE: a value that was allowed to be partial becomes one that is not:
+        # it must not have a required field unset (the field it is assigned to
+        # may not look inside, e.g. `pg.typing.Any()`).
+        if not allow_partial and self.sym_missing(flatten=False):
+          raise ValueError(
+              utils.message_on_path(
+                  f'Dict {self!r} is not fully bound.', path))
         self._allow_partial = allow_partial
     elif isinstance(value_spec, pg_typing.Dict):
       # NOTE: a field with a user transform applies its transform-free twin to
